@@ -85,6 +85,7 @@ BASES = [
      'loop': ['text', 'ping'], 'app_echo': True},
 ]
 SLOT1 = 6000
+FSLOT = 1200
 _INFO = {}
 
 
@@ -114,6 +115,7 @@ def plan(tier):
                 ('sweep2_full', sum(_full2_size(b) for b in _full2_bases())),
                 ('base_random', len(BASES) * 6000),
                 ('stall', 40000),
+                ('freeze', len(BASES) * FSLOT),
                 ('sweep2', 60000),
                 ('random', 150000),
                 ('big', 3000)]
@@ -121,6 +123,7 @@ def plan(tier):
             ('sweep1b', len(BASES) * SLOT1),
             ('base_random', len(BASES) * 250),
             ('stall', 1500),
+            ('freeze', len(BASES) * FSLOT),
             ('sweep2', 3000 if q else 200000),
             ('random', 2500 if q else 150000),
             ('big', 60 if q else 3000)]
@@ -159,6 +162,25 @@ def make_case(family, i, rng, tier):
             case['schedule'] = {'kind': 'pct', 'seed': rng.getrandbits(32),
                                 'd': rng.choice([2, 3, 4]),
                                 'horizon': rng.choice([150, 400, 800])}
+        return case
+    if family == 'freeze':
+        # a sender thread is taken off the CPU for 0.6 / 2.5 simulated
+        # seconds at one step of its call (every step is tried): timers of
+        # the event loop fire, the peer's traffic is handled, other threads
+        # run to completion meanwhile
+        b = i // FSLOT
+        n, nt = _info(b)
+        slot = i % FSLOT
+        step, who = slot // max(1, nt - 1) + 2, slot % max(1, nt - 1) + 1
+        if step > n or nt < 2:
+            return None
+        if tier == 'quick' and step % 3:
+            return None
+        case = copy.deepcopy(BASES[b])
+        case['schedule'] = {'kind': 'preempt', 'points': [[1, who]],
+                            'freeze': [[step, who,
+                                        [600001, 2500001][step % 2]]]}
+        case['max_steps'] = 120000
         return case
     if family == 'stall':
         # one sender's sendall blocks half-way (the peer stopped reading) for
